@@ -18,6 +18,7 @@ type c11Pair struct {
 	SerialA   string `json:"listed_serial"`
 	IssuerB   string `json:"presented_issuer_cn"`
 	SerialB   string `json:"presented_serial"`
+	SameKey   bool   `json:"issuers_share_one_key"`
 	Storage   string `json:"storage"`
 	Listed    string `json:"verdict_for_listed_control"`
 	Presented string `json:"verdict_for_presented"`
@@ -39,6 +40,9 @@ func c11KeyStage(c *Ctx) int {
 		{Name: "same serial, issuer names differing in the last character", IssuerA: "Seed CA", SerialA: "77", IssuerB: "Seed CB", SerialB: "77"},
 		{Name: "same serial, issuer name a prefix of the other", IssuerA: "Seed CA", SerialA: "77", IssuerB: "Seed C", SerialB: "77"},
 		{Name: "same serial, same CN under another organisation", IssuerA: "Seed CA", SerialA: "77", IssuerB: "Seed CA/O=other", SerialB: "77"},
+		// a CA renamed without re-keying: two issuer names, one key and one key identifier; the listing issuer is seen first
+		{Name: "same serial, renamed CA with the same key (one key identifier, two names)", IssuerA: "Seed CA", SerialA: "77", IssuerB: "Seed CA renamed", SerialB: "77", SameKey: true},
+		{Name: "same serial, renamed CA with the same key, other organisation", IssuerA: "Seed CA", SerialA: "78", IssuerB: "Seed CA/O=other", SerialB: "78", SameKey: true},
 	}
 	n := 0
 	for _, storage := range []string{"memory", "disk"} {
@@ -55,7 +59,11 @@ func c11KeyStage(c *Ctx) int {
 			}
 			w.CA = newCert(w.Root, CAOpts{Name: name(p.IssuerA)})
 			if p.IssuerB != p.IssuerA {
-				w.Other = newCert(w.Root, CAOpts{Name: name(p.IssuerB)})
+				o := CAOpts{Name: name(p.IssuerB)}
+				if p.SameKey {
+					o.Key = w.CA.Key
+				}
+				w.Other = newCert(w.Root, o)
 			} else {
 				w.Other = w.CA
 			}
